@@ -556,6 +556,49 @@ theorem invPr_step (persist : Bool) (s : Pr) (op : PrOp) (h : InvPr persist s) :
           subst hp
           simpa using h5 rfl
 
+  | samples =>
+    simp only [stepPr]
+    cases hi : s.input with
+    | none => exact ⟨h1, h2, h3, h4, h5⟩
+    | some i =>
+      simp only []
+      cases hf : effFilter s i with
+      | none => exact ⟨h1, h2, h3, h4, h5⟩
+      | some f =>
+        simp only []
+        refine ⟨h1, h2, ?_, ?_, ?_⟩
+        · intro x hx
+          by_cases hk : i.kind = .svd
+          · simp only [hk, if_true, Option.some.injEq] at hx
+            subst hx
+            cases hm : s.inputsMap with
+            | none => exact ⟨i, rfl, by simp [h1]⟩
+            | some y =>
+              obtain ⟨i', hi', hy⟩ := h3 _ hm
+              rw [hi] at hi'; cases hi'
+              exact ⟨i, rfl, by simpa using hy⟩
+          · simp only [hk, if_false] at hx
+            obtain ⟨i', hi', hy⟩ := h3 _ hx
+            rw [hi] at hi'; cases hi'
+            exact ⟨i, rfl, hy⟩
+        · intro ha
+          cases persist with
+          | false => simpa using h4 (by simpa using ha)
+          | true =>
+            simp only [if_true, Bool.or_eq_false_iff] at ha
+            obtain ⟨ha1, ha2⟩ := ha
+            have hfu := h4 ha1
+            cases hsf : s.filt with
+            | none => simp [hsf] at ha2
+            | some f0 =>
+              simp only [effFilter, autoFilter, hsf, Option.some.injEq] at hf
+              subst hf
+              simp only [if_true]
+              rw [← hfu, hsf]
+        · intro hp
+          subst hp
+          simpa using h5 rfl
+
 /-- under the invariant, with an input given after the last herald and a filter that was not written by the
 automatic rule, `probs(precision)` has the closed form `specPr` of the configuration -/
 theorem probsPr_spec (persist : Bool) (s : Pr) (prec : Option Nat) (h : InvPr persist s)
@@ -587,6 +630,101 @@ theorem probsPr_spec (persist : Bool) (s : Pr) (prec : Option Nat) (h : InvPr pe
       rw [e2, simFor_eq s prec h2]
       simp only [genMap, hc1]
 
+/-- the stored-filter form, WITHOUT the hypothesis `auto = false`: under the invariant, with an input given
+after the last herald, `probs(precision)` has the closed form `specPr` of the configuration in which the photon
+filter is the stored one (`Pr.configStored`) -/
+theorem probsPr_spec_stored (persist : Bool) (s : Pr) (prec : Option Nat) (h : InvPr persist s)
+    (hc : s.inputCurrent) :
+    (stepPr persist s (.probs prec)).2 = specPr s.configStored prec := by
+  obtain ⟨h1, h2, h3, _, _⟩ := h
+  simp only [stepPr, specPr, Pr.configStored, Pr.config]
+  cases hi : s.input with
+  | none => rfl
+  | some i =>
+    obtain ⟨hc1, hc2⟩ := hc i hi
+    have hef : effFilter s i = autoFilter s.filt s.noise.2 i.kind i.n := by
+      simp only [effFilter, h1]
+      by_cases hk : i.kind = InKind.bs
+      · simp [hk, hc2]
+      · cases s.filt <;> simp [autoFilter, hk]
+    simp only [Option.map_some, hef]
+    cases hq : autoFilter s.filt s.noise.2 i.kind i.n with
+    | none => rfl
+    | some f =>
+      simp only []
+      have e2 : s.inputsMap.getD (genMap s.source i) = genMap s.noise i := by
+        cases hm : s.inputsMap with
+        | none => simp [h1]
+        | some y =>
+          obtain ⟨i', hi', hy⟩ := h3 _ hm
+          rw [hi] at hi'; cases hi'; simpa using hy
+      rw [e2, simFor_eq s prec h2]
+      simp only [genMap, hc1]
+
+/-- `samples`: the same closed form (every argument handed to the sampling simulator is read from the current
+configuration and the stored filter) -/
+theorem samplesPr_spec_stored (persist : Bool) (s : Pr) (h : InvPr persist s) (hc : s.inputCurrent) :
+    (stepPr persist s .samples).2 = specPrQ s.configStored .samples := by
+  obtain ⟨h1, _, h3, _, _⟩ := h
+  simp only [stepPr, specPrQ, specPr, Pr.configStored, Pr.config]
+  cases hi : s.input with
+  | none => rfl
+  | some i =>
+    obtain ⟨hc1, hc2⟩ := hc i hi
+    have hef : effFilter s i = autoFilter s.filt s.noise.2 i.kind i.n := by
+      simp only [effFilter, h1]
+      by_cases hk : i.kind = InKind.bs
+      · simp [hk, hc2]
+      · cases s.filt <;> simp [autoFilter, hk]
+    simp only [Option.map_some, hef]
+    cases hq : autoFilter s.filt s.noise.2 i.kind i.n with
+    | none => rfl
+    | some f =>
+      simp only []
+      have e2 : (if i.kind = InKind.svd then s.inputsMap.getD (genMap s.source i) else genMap s.source i) =
+          genMap s.noise i := by
+        by_cases hk : i.kind = InKind.svd
+        · simp only [hk, if_true]
+          cases hm : s.inputsMap with
+          | none => simp [h1]
+          | some y =>
+            obtain ⟨i', hi', hy⟩ := h3 _ hm
+            rw [hi] at hi'; cases hi'; simpa using hy
+        · simp [hk, h1]
+      rw [e2]
+      simp only [genMap, hc1]
+
+theorem queryPr_spec_stored (persist : Bool) (s : Pr) (q : PrOp) (hq : q.isQuery = true) (h : InvPr persist s)
+    (hc : s.inputCurrent) :
+    (stepPr persist s q).2 = specPrQ s.configStored q := by
+  cases q with
+  | probs prec => exact probsPr_spec_stored persist s prec h hc
+  | samples => exact samplesPr_spec_stored persist s h hc
+  | _ => simp [PrOp.isQuery] at hq
+
+/-- when the stored filter was not written by the automatic rule it is the user's: the two configurations agree -/
+theorem configStored_eq (persist : Bool) (s : Pr) (h : InvPr persist s) (ha : s.auto = false) :
+    s.configStored = s.config := by
+  simp [Pr.configStored, Pr.config, h.filt ha]
+
+/-- one step that is not `min_detected_photons_filter(k)` never changes a stored filter -/
+theorem stored_filter_step (s : Pr) (op : PrOp) (f : Nat) (hf : s.filt = some f) (hop : op.setsFilter = false) :
+    (stepPr true s op).1.filt = some f := by
+  cases op with
+  | setFilter k => simp [PrOp.setsFilter] at hop
+  | clearPs => simp only [stepPr]; split <;> simp [hf]
+  | probs prec =>
+    simp only [stepPr]
+    cases hi : s.input with
+    | none => simpa using hf
+    | some i => simp [effFilter, autoFilter, hf]
+  | samples =>
+    simp only [stepPr]
+    cases hi : s.input with
+    | none => simpa using hf
+    | some i => simp [effFilter, autoFilter, hf]
+  | _ => simpa [stepPr] using hf
+
 /-- two states that differ at most in what the held NoiseModel object shows, unless the noise is assigned -/
 def sameButHeld (a b : Pr) : Prop := ∃ v, { a with held := v } = b
 
@@ -597,6 +735,12 @@ theorem sameButHeld_step (persist : Bool) (a b : Pr) (op : PrOp) (h : sameButHel
   obtain ⟨c, hr, nh, ps, d, hl, nz, src, inp, fu, fl, au, im, sm, pset⟩ := a
   cases op with
   | probs prec =>
+    cases inp with
+    | none => exact ⟨⟨v, rfl⟩, rfl⟩
+    | some i =>
+      simp only [stepPr, effFilter, sameButHeld]
+      cases autoFilter fl src.2 i.kind (i.n + i.nHer - nh) <;> exact ⟨⟨v, rfl⟩, rfl⟩
+  | samples =>
     cases inp with
     | none => exact ⟨⟨v, rfl⟩, rfl⟩
     | some i =>
